@@ -95,11 +95,12 @@ class Tr:
         if isinstance(n, ast.JoinedStr):
             return ".ostr"
         if isinstance(n, ast.Name):
-            return f"(.var {self.nm(n.id)})"
+            # Python decides statically: a name the function assigns anywhere is local, every other name is module-level
+            return f"(.var {self.nm(n.id)})" if n.id in self.locals else f"(.glob {self.nm(n.id)})"
         if isinstance(n, ast.Attribute):
             d = self.dotted(n)
             if d is not None:
-                return f"(.var {self.nm(d)})"
+                return f"(.glob {self.nm(d)})"
             return f"(.attr {self.E(n.value)} {self.nm(n.attr)})"
         if isinstance(n, ast.BinOp):
             ops = {ast.Add: "add", ast.Sub: "sub", ast.Mult: "mul", ast.FloorDiv: "floordiv", ast.Mod: "mod",
@@ -290,7 +291,9 @@ def main():
         allp = params + kwonly + ([a.kwarg.arg] if a.kwarg else [])
         if a.vararg:
             facts["untranslatable"][qual] = "*args"
-        tr = Tr(allp)
+        stored = {x.id for x in ast.walk(node) if isinstance(x, ast.Name) and isinstance(x.ctx, ast.Store)}
+        stored |= {h.name for h in ast.walk(node) if isinstance(h, ast.ExceptHandler) and h.name}
+        tr = Tr(list(allp) + sorted(stored))
         try:
             body = tr.B(node.body)
             legend = ", ".join(f"{k}={hex(v)}" for k, v in sorted(tr.names.items()))
